@@ -822,6 +822,21 @@ theorem check_pack_reads_transparent (s : St) (trust : Bool) (snaps idx : List (
   rw [← (check_cleanup_keeps_repository (L := L) s trust snaps idx tp).1]
   exact prefix_entry_ranged_read_equiv (fun d' h' => ⟨d', e d' h', (List.take_length).symm⟩) cb off hlen
 
+/-- **The pack comparison of `check` (`check_cache_files(Pack)`, run without `trust_cache`) reports nothing** after the clean-up, whatever
+the cache directory held before: every entry left is the repository's pack — so the findings of `check` through a cached handle carry no
+cache-specific entry, with either setting. -/
+theorem check_cache_files_silent (s : St) (trust : Bool) (snaps idx : List (Name × Nat)) {tp : List (Name × Nat)}
+    (htp : TreePacksOf s.be tp) (hh : Honest s .pack) :
+    checkCacheFilesPack L (checkCleanup L s trust snaps idx tp) = [] := by
+  unfold checkCacheFilesPack
+  rw [List.filterMap_eq_nil_iff]
+  intro e he
+  obtain ⟨hn, hs⟩ := cList_hit he
+  obtain ⟨d, hd⟩ := Option.isSome_iff_exists.1 hs
+  have hb := check_pack_entries_coherent s trust snaps idx htp hh hn d hd
+  rw [hb, hd]
+  simp
+
 /-- … and whole-pack reads (`read_data`) never look at the cache at all -/
 theorem check_pack_read_full_transparent (s : St) (trust : Bool) (snaps idx tp : List (Name × Nat)) (id : Name) :
     (readFull (checkCleanup L s trust snaps idx tp) .pack id).1 = beReadFull s.be .pack id := by
